@@ -8,10 +8,11 @@ Specification: `NeoFS/Lemmas/NetmapRingSpec.lean` (`Spec`: published maps newest
 epoch, `valid` = number of most recent maps retained; `RingInv s p` = the contract state `s` stores exactly
 what `p` says). Property statements only; the proofs are in `NeoFS/Lemmas/NetmapRing*.lean`.
 
-Scope of the quantifiers (the property's own): counts `1 ≤ K ≤ 256` (a ring index is one byte; the property's
-bounded scope is 0..12, count 0 and negative counts are refused), consecutive ticks, epochs below 2³²
-(`fourBytesBE` is four bytes wide; 2³² consecutive ticks are not reachable). Nothing else is assumed: all old
-counts, all ring positions, all numbers of elapsed epochs, all candidate sets, all signer sets. -/
+Scope of the quantifiers (the property's own): consecutive ticks, epochs below 2³² (`fourBytesBE` is four bytes
+wide; 2³² consecutive ticks are not reachable). `updateSnapshotCount` is quantified over ALL integers: the method's
+guards accept exactly `1 ≤ K ≤ 256` (a ring index is one byte; count 0, negative counts and counts above 256 are
+refused without effect). Nothing else is assumed: all old counts, all ring positions, all numbers of elapsed epochs,
+all candidate sets, all signer sets. -/
 namespace NeoFS.Props.C08
 open NeoFS NeoFS.NetmapRing
 
@@ -81,54 +82,63 @@ theorem ringInv_tick (s s' : State) (p : Spec) (env : Env) (h : RingInv s p) (hc
     (ht : newEpoch s env ((s.cur : Int) + 1) = some s') : RingInv s' (p.tick (published s)) :=
   inv_tick s s' p env h hcur ht
 
-/-- **Every HALTing `updateSnapshotCount K`, `K ≤ 256`, preserves the invariant** with `N := K`,
+/-- **Every HALTing `updateSnapshotCount K` — any integer `K` — preserves the invariant** with `N := K`,
 `valid := min valid K`: all old counts, all ring positions, all numbers of elapsed epochs (grow, shrink
 below and above the current position). -/
-theorem ringInv_resize (s s' : State) (p : Spec) (env : Env) (k : Int) (h : RingInv s p) (hk : k ≤ 256)
+theorem ringInv_resize (s s' : State) (p : Spec) (env : Env) (k : Int) (h : RingInv s p)
     (hr : updateSnapshotCount s env k = some s') : RingInv s' (p.resize k.toNat) :=
-  inv_resize s s' p env k h hk hr
+  inv_resize s s' p env k h hr
 
-/-- only positive, changed counts signed by the Alphabet are accepted (F3: count 0 is refused) -/
+/-- only changed counts `1 ≤ K ≤ 256` signed by the Alphabet are accepted (F3: count 0 is refused; counts that
+do not fit the one-byte ring index are refused) -/
 theorem resize_accepts_only (s s' : State) (env : Env) (k : Int) (hr : updateSnapshotCount s env k = some s') :
-    env.alphabet = true ∧ 0 < k ∧ (s.count : Int) ≠ k ∧ s'.count = k.toNat ∧ s'.cur = s.cur := by
-  have hpos := resize_pos s s' env k hr
+    env.alphabet = true ∧ 0 < k ∧ k ≤ 256 ∧ (s.count : Int) ≠ k ∧ s'.count = k.toNat ∧ s'.cur = s.cur := by
+  obtain ⟨hpos, hle⟩ := resize_bounds s s' env k hr
   obtain ⟨new, rfl⟩ : ∃ new : Nat, k = (new : Int) := ⟨k.toNat, by omega⟩
-  obtain ⟨ha, _, hne, hcase⟩ := resize_some_nat s s' env new hr
-  refine ⟨ha, hpos, by omega, ?_, ?_⟩
+  obtain ⟨ha, _, _, hne, hcase⟩ := resize_some_nat s s' env new hr
+  refine ⟨ha, hpos, hle, by omega, ?_, ?_⟩
   · rcases hcase with ⟨_, r, r', _, _, rfl⟩ | ⟨_, r, r', _, _, rfl⟩ <;> simp
   · rcases hcase with ⟨_, r, r', _, _, rfl⟩ | ⟨_, r, r', _, _, rfl⟩ <;> rfl
 
 /-- **Any accepted count leaves the contract able to tick again.** -/
-theorem accepted_count_ticks (s s' : State) (p : Spec) (env : Env) (k : Int) (h : RingInv s p) (hk : k ≤ 256)
+theorem accepted_count_ticks (s s' : State) (p : Spec) (env : Env) (k : Int) (h : RingInv s p)
     (hr : updateSnapshotCount s env k = some s') :
     ∃ s'', newEpoch s' ⟨true, false⟩ ((s'.cur : Int) + 1) = some s'' :=
-  tick_halts s' _ (inv_resize s s' p env k h hk hr) ⟨true, false⟩ rfl
+  tick_halts s' _ (inv_resize s s' p env k h hr) ⟨true, false⟩ rfl
 
-/-- **Exactly when `updateSnapshotCount K` HALTs** (under the invariant, `K ≤ 256`): the Alphabet signed, `K` is
-positive and differs from the count, and every ring slot the move loop reads is present. The last condition
+/-- **Counts above 256 are refused without effect**, in every state and for every signer set (the defect
+repaired by `fix: netmap: refuse snapshot counts above 256`: such a count used to be accepted whenever the
+resize had nothing to move, after which the contract could neither be resized nor, from ring index 255 on, tick). -/
+theorem count_above_256_refused (s : State) (env : Env) (k : Int) (hk : 256 < k) :
+    updateSnapshotCount s env k = none ∧ invoke s env (.updateSnapshotCount k) = (s, false) := by
+  have h := resize_above_refused s env k hk
+  exact ⟨h, by simp [invoke, step, h]⟩
+
+/-- **Exactly when `updateSnapshotCount K` HALTs** (under the invariant, any integer `K`): the Alphabet signed,
+`1 ≤ K ≤ 256`, `K` differs from the count, and every ring slot the move loop reads is present. The last condition
 fails only while slots deleted by an earlier grow have not been refilled (`storage.Put(key, nil)` FAULTs). -/
-theorem resize_halts_iff (s : State) (p : Spec) (h : RingInv s p) (env : Env) (k : Int) (hk : k ≤ 256) :
+theorem resize_halts_iff (s : State) (p : Spec) (h : RingInv s p) (env : Env) (k : Int) :
     (updateSnapshotCount s env k).isSome = true ↔
-      env.alphabet = true ∧ 0 < k ∧ (s.count : Int) ≠ k ∧
+      env.alphabet = true ∧ 0 < k ∧ k ≤ 256 ∧ (s.count : Int) ≠ k ∧
       ∀ m ∈ movesOf s k.toNat, (rget s.ring m.1).isSome = true := by
   by_cases hpos : 0 < k
   · obtain ⟨new, rfl⟩ : ∃ new : Nat, k = (new : Int) := ⟨k.toNat, by omega⟩
-    rw [Int.toNat_natCast, resize_halts_iff_nat s p h env new (by omega)]
+    rw [Int.toNat_natCast, resize_halts_iff_nat s p h env new]
     constructor
-    · rintro ⟨a, b, c, d⟩; exact ⟨a, by omega, by omega, d⟩
-    · rintro ⟨a, b, c, d⟩; exact ⟨a, by omega, by omega, d⟩
+    · rintro ⟨a, b, c, d, e⟩; exact ⟨a, by omega, by omega, by omega, e⟩
+    · rintro ⟨a, b, c, d, e⟩; exact ⟨a, by omega, by omega, by omega, e⟩
   · constructor
     · intro hs
       obtain ⟨s', hs'⟩ := Option.isSome_iff_exists.mp hs
       exact absurd (resize_pos s s' env k hs') hpos
-    · rintro ⟨_, b, _, _⟩; exact absurd b hpos
+    · rintro ⟨_, b, _, _, _⟩; exact absurd b hpos
 
 /-- On a ring without holes (after deployment, and again `new-old` ticks after a grow) every positive changed
 count up to 256 signed by the Alphabet is accepted. -/
 theorem resize_halts_on_full_ring (s : State) (p : Spec) (h : RingInv s p) (hf : Full s) (env : Env) (k : Int)
     (ha : env.alphabet = true) (h0 : 0 < k) (hk : k ≤ 256) (hne : (s.count : Int) ≠ k) :
     (updateSnapshotCount s env k).isSome = true :=
-  (resize_halts_iff s p h env k hk).mpr ⟨ha, h0, hne, full_moves s p h hf k.toNat⟩
+  (resize_halts_iff s p h env k).mpr ⟨ha, h0, hk, hne, full_moves s p h hf k.toNat⟩
 
 /-- the deployed ring has no holes and ticks keep it so -/
 theorem full_ring_init_and_tick :
@@ -192,13 +202,13 @@ theorem netmap_exact (s : State) (p : Spec) (h : RingInv s p) :
 bring back or keep anything older**: after an accepted `updateSnapshotCount K`, `snapshot(d)` and
 `listNodes(cur-d)` answer as before for `d < min valid K`, and with nothing beyond. -/
 theorem resize_preserves_recent_only (s s' : State) (p : Spec) (env : Env) (k : Int) (h : RingInv s p)
-    (hk : k ≤ 256) (hr : updateSnapshotCount s env k = some s') :
+    (hr : updateSnapshotCount s env k = some s') :
     (∀ d : Nat, d < min p.valid k.toNat →
         snapshot s' (d : Int) = snapshot s (d : Int) ∧
         listNodes s' ((p.cur - d : Nat) : Int) = listNodes s ((p.cur - d : Nat) : Int)) ∧
     (∀ d : Nat, min p.valid k.toNat ≤ d → snapshot s' (d : Int) = none ∨ snapshot s' (d : Int) = some []) ∧
     (∀ e : Nat, e < 2 ^ 32 → ¬ (p.cur < e + min p.valid k.toNat ∧ e ≤ p.cur) → listNodes s' (e : Int) = []) := by
-  have h' := inv_resize s s' p env k h hk hr
+  have h' := inv_resize s s' p env k h hr
   have hpos := resize_pos s s' env k hr
   have hv := h.valid_le_n
   have hvc := h.valid_le_cur
@@ -234,7 +244,7 @@ theorem resize_preserves_recent_only (s s' : State) (p : Spec) (env : Env) (k : 
 /-! ### all histories -/
 
 /-- **After every history inside the quantifier** (any interleaving of ticks of the next epoch, refused
-calls, `updateSnapshotCount K` with `K ≤ 256`, candidate changes; any signer sets) the contract state
+calls, `updateSnapshotCount K` with any integer `K`, candidate changes; any signer sets) the contract state
 agrees with the specification that was driven by the accepted calls only. -/
 theorem ringInv_all_histories (ops : List (Env × Op)) (hw : WFHist init ops) :
     RingInv (run init ops) (runBoth init Spec.init ops).2 := by
@@ -257,8 +267,8 @@ theorem valid_is_min_N_elapsed (ms : List Pub) :
     (ms.foldl Spec.tick Spec.init).valid = min 10 ms.length ∧ (ms.foldl Spec.tick Spec.init).n = 10 :=
   valid_ticks_only ms
 
-/-! ### non-vacuity: a concrete history with shrink 10→3 at epoch 13, refused calls, grow 3→5, a grow that
-FAULTs on a never-filled slot, and ticks in between -/
+/-! ### non-vacuity: a concrete history with shrink 10→3 at epoch 13, refused calls (count 0, 257, 2⁶³, stale
+epoch, no witness), grow 3→5, a grow that FAULTs on a never-filled slot, and ticks in between -/
 
 set_option maxRecDepth 100000
 
@@ -271,7 +281,10 @@ example : snapshot (run init exHist) 0 = some [0, 1] ∧ snapshot (run init exHi
 example : listNodes (run init exHist) 12 = [2, 4] ∧ listNodes (run init exHist) 13 = [0, 2, 4] ∧ listNodes (run init exHist) 11 = [] ∧
     listNodes (run init exHist) 17 = [] := by decide
 -- the grow 5→7 at epoch 15 had to move a never-filled slot and FAULTed; count 0 and the stale epoch were refused
-example : (updateSnapshotCount (run init (exHist.take 45)) alpha 7).isNone = true := by decide
+example : (updateSnapshotCount (run init (exHist.take 47)) alpha 7).isNone = true := by decide
+example : (updateSnapshotCount init alpha 256).isSome = true ∧ (updateSnapshotCount init alpha 257).isNone = true ∧
+    (updateSnapshotCount (run init [(alpha, .updateSnapshotCount 1)]) alpha 300).isNone = true ∧
+    (updateSnapshotCount (run init [(alpha, .updateSnapshotCount 1)]) alpha 256).isSome = true := by decide
 example : (updateSnapshotCount init alpha 0).isNone = true ∧ (updateSnapshotCount init alpha 10).isNone = true ∧
     (updateSnapshotCount init nobody 3).isNone = true ∧ (updateSnapshotCount init alpha 3).isSome = true := by decide
 
